@@ -215,7 +215,7 @@ impl Prop for C16 {
         json!({"idx": idx, "case": self.cases[idx as usize], "keys": keys().iter().map(|k| hex(k)).collect::<Vec<_>>()})
     }
     fn rule(&self) -> String {
-        "cases: [sequence] every sequence of <=3 (<=4 thorough; thorough also every sequence of 5 and 6 operations with len in {0,1,16,256}) operations over {wrap(len), unwrap(peer-sealed len)} with len in {0,1,2,3,15,16,17,255,256,1000}, for 5 exported session keys, on the context built by the public constructor and (sequences <=2) on the one built by a real NEGOTIATE/CHALLENGE handshake (for every second session key the same Ntlm object has completed an earlier handshake, with another key, before): every wrap output must be byte-identical to reference MS-NLMP SEAL+SIGN with carried-over cipher state and sequence numbers, every unwrap must return the plaintext; plus long-lived contexts (300 wraps, 300 unwraps, 600 alternating, 260 unwraps then 260 wraps: the sequence numbers pass 256 in each direction) and messages of 65519..200000 bytes followed by further traffic; every length 0..1100 and 2^k-5..2^k+4 (k = 11..16) sealed / unsealed / both in one context; [tamper] for every peer-sealed message of length 0..17, 100, 256 at stream position 0 and 1: every single-bit flip, truncations, extensions by 1..3 bytes, reflection, rewritten sequence numbers: all must be rejected. Non-trivial: sequences of >=2 operations and all tamper cases.".into()
+        "cases: [sequence] every sequence of <=3 (<=4 thorough; thorough also every sequence of 5 and 6 operations with len in {0,1,16,256}) operations over {wrap(len), unwrap(peer-sealed len)} with len in {0,1,2,3,15,16,17,255,256,1000}, for 5 exported session keys, on the context built by the public constructor and (sequences <=2) on the one built by a real NEGOTIATE/CHALLENGE handshake (for every second session key the same Ntlm object has completed an earlier handshake, with another key, before): every wrap output must be byte-identical to reference MS-NLMP SEAL+SIGN with carried-over cipher state and sequence numbers, every unwrap must return the plaintext; every tampered message is refused, and refused again when presented a second time to the same context; plus long-lived contexts (300 wraps, 300 unwraps, 600 alternating, 260 unwraps then 260 wraps: the sequence numbers pass 256 in each direction) and messages of 65519..200000 bytes followed by further traffic; every length 0..1100 and 2^k-5..2^k+4 (k = 11..16) sealed / unsealed / both in one context; [tamper] for every peer-sealed message of length 0..17, 100, 256 at stream position 0 and 1: every single-bit flip, truncations, extensions by 1..3 bytes, reflection, rewritten sequence numbers: all must be rejected. Non-trivial: sequences of >=2 operations and all tamper cases.".into()
     }
     fn assumptions(&self) -> Vec<String> {
         vec![
@@ -313,7 +313,14 @@ impl Prop for C16 {
                     return Outcome::pass("tamper-noop", false);
                 }
                 match lib.gss_unwrapex(&msg) {
-                    Err(_) => Outcome::pass(format!("rejected-{}", class), true),
+                    Err(_) => {
+                        // the same forgery presented again to the same context is refused again (a refusal must not
+                        // teach the context to expect what it just refused)
+                        match lib.gss_unwrapex(&msg) {
+                            Err(_) => Outcome::pass(format!("rejected-{}", class), true),
+                            Ok(p) => Outcome::fail("mismatch", format!("tampered-message-accepted-at-the-second-presentation-{}", class), format!("key {} len {} prior {} {:?}: refused once, then accepted, plaintext {}..", key, len, prior, t, hex(&p[..p.len().min(16)]))),
+                        }
+                    }
                     Ok(p) => Outcome::fail("mismatch", format!("tampered-message-accepted-{}", class), format!("key {} len {} prior {} {:?}: accepted, plaintext {}..", key, len, prior, t, hex(&p[..p.len().min(16)]))),
                 }
             }
